@@ -247,17 +247,14 @@ def run(prog: Program, rep, thorough: bool) -> None:
                                   'muzzle_velocity': S('mv')})
     atmo = ev.new_inst(st, atmo_cls, {
         '_pressure': C.mk_quantity(ev, st, prog, 'Pressure', 'Praw', 'MmHg'),
-        '_temperature': C.mk_quantity(ev, st, prog, 'Temperature', 'Traw', 'Fahrenheit')})
+        '_temperature': C.mk_quantity(ev, st, prog, 'Temperature', 'Traw', 'Celsius')})
     try:
         got, st = ev.call_value(sc, [atmo], self_val=selfv, st=st)
     except Undecided as exc:
         raise AnalysisError(f'calc_stability_coefficient: {exc}') from exc
     # temperature in F and pressure in inHg according to the analysed tables
-    q_t = C.mk_quantity(ev, st, prog, 'Temperature', 'Traw', 'Fahrenheit')
-    q_p = C.mk_quantity(ev, st, prog, 'Pressure', 'Praw', 'MmHg')
-    get_in = prog.find_method(prog.cls(C.M_UNIT, 'Temperature'), 'get_in')
-    tF, _ = ev.call_value(get_in, [C.enum_val(prog, 'Fahrenheit')], self_val=q_t, st=st)
-    pI, _ = ev.call_value(get_in, [C.enum_val(prog, 'InHg')], self_val=q_p, st=st)
+    tF = Scalar(C.read_raw_in(ev, prog, 'Temperature', 'Traw', 'Fahrenheit'))
+    pI = Scalar(C.read_raw_in(ev, prog, 'Pressure', 'Praw', 'InHg'))
     env = {'tw': S('tw'), 'len': S('len'), 'd': S('d'), 'w': S('w'), 'mv': S('mv'), 'F': tF, 'P': pI, 'Praw': S('Praw')}
     miller = ('30 * w / ((abs(tw) / d) ** 2 * d ** 3 * (len / d) * (1 + (len / d) ** 2))'
               ' * (mv / 2800) ** (1.0 / 3.0) * ((F + 460) / (59 + 460)) * (29.92 / P)')
